@@ -129,23 +129,6 @@ CloseExhausted(r) ==
        [r EXCEPT !.queue = @ \o EndsOf(r.stack, i), !.stack = SubSeq(@, 1, i - 1)]
 
 RECURSIVE ReadNext(_, _, _, _)
-RECURSIVE BufferLoop(_, _, _, _, _, _, _, _)
-
-\* buffer_master: keep reading until the End of master `id` (or an error) is queued behind
-\* position `pre`; then replace Start..End by one Full item carrying the master's start offset
-BufferLoop(sch, cfg, inp, r, id, pre, p, m) ==
-  IF p > Len(r.queue) THEN
-    LET r2 == ReadNext(sch, cfg, inp, r) IN
-    IF Len(r2.queue) < p
-    THEN [r2 EXCEPT !.queue = SubSeq(@, 1, pre) \o <<EofErr(m.start, TRUE, id, FALSE, <<>>, FALSE, <<>>)>>]
-    ELSE BufferLoop(sch, cfg, inp, r2, id, pre, p, m)
-  ELSE LET q == r.queue[p] IN
-    IF q.res = "err" THEN [r EXCEPT !.queue = SubSeq(@, 1, pre) \o <<q>>]
-    ELSE IF q.kind = "end" /\ q.id = id
-         THEN [r EXCEPT !.queue = SubSeq(@, 1, pre)
-                                  \o <<Item("full", id, m.start, "master", <<>>, RollUp(SubSeq(@, pre + 1, p - 1)))>>
-                                  \o Drop(@, p)]
-    ELSE BufferLoop(sch, cfg, inp, r, id, pre, p + 1, m)
 
 ReadNext(sch, cfg, inp, r0) ==
   LET r == CloseExhausted(r0) IN
@@ -161,16 +144,40 @@ ReadNext(sch, cfg, inp, r0) ==
       IF rt.master THEN
         LET m  == [id |-> rt.it.id, unk |-> rt.h.unk, size |-> rt.h.size, start |-> rt.it.off, dstart |-> r1.pos, implied |-> FALSE]
             r3 == [r2 EXCEPT !.stack = Append(@, m)] IN
-        IF rt.it.id \in cfg.buffered
-        THEN BufferLoop(sch, cfg, inp, r3, rt.it.id, Len(r3.queue), Len(r3.queue) + 1, m)
-        ELSE [r3 EXCEPT !.queue = Append(@, rt.it)]
+        [r3 EXCEPT !.queue = Append(@, rt.it)]          \* (also the Start of a buffered master: it is assembled when it is emitted)
       ELSE [r2 EXCEPT !.queue = Append(@, rt.it)]
 
 (* ----------------------------- public calls --------------------------- *)
+\* A master requested as buffered is emitted as one Full item: its Start waits at the front of the queue until the
+\* queue holds its End (masters with the same id may be nested inside) or an error, which is emitted in its place.
+\* Reading never recurses into the assembly, so a run of buffered siblings is emitted one by one.
+\* Index of that End / error in queue q (searching from j), 0 if neither is queued yet.
+RECURSIVE EndOfBuffered(_, _, _, _)
+EndOfBuffered(q, id, j, depth) ==
+  IF j > Len(q) THEN 0
+  ELSE IF q[j].res = "err" THEN j
+  ELSE IF q[j].id = id /\ q[j].kind = "start" THEN EndOfBuffered(q, id, j + 1, depth + 1)
+  ELSE IF q[j].id = id /\ q[j].kind = "end" THEN (IF depth = 0 THEN j ELSE EndOfBuffered(q, id, j + 1, depth - 1))
+  ELSE EndOfBuffered(q, id, j + 1, depth)
+FrontBuffered(cfg, r) == r.queue # <<>> /\ r.queue[1].res = "item" /\ r.queue[1].kind = "start" /\ r.queue[1].id \in cfg.buffered
+\* [ready, r]: ready = the front of the queue can be emitted; not ready = the end of the buffered master at the front has
+\* not been read and the input has nothing more (for now): everything read so far stays queued and a later call continues
+RECURSIVE Assemble(_, _, _, _)
+Assemble(sch, cfg, inp, r) ==
+  IF ~FrontBuffered(cfg, r) THEN [ready |-> TRUE, r |-> r]
+  ELSE LET st == r.queue[1]  e == EndOfBuffered(r.queue, st.id, 2, 0) IN
+    IF e = 0 THEN
+      LET r2 == ReadNext(sch, cfg, inp, r) IN
+      IF Len(r2.queue) = Len(r.queue) THEN [ready |-> FALSE, r |-> r2] ELSE Assemble(sch, cfg, inp, r2)
+    ELSE IF r.queue[e].res = "err" THEN [ready |-> TRUE, r |-> [r EXCEPT !.queue = Drop(@, e - 1)]]
+    ELSE [ready |-> TRUE,
+          r |-> [r EXCEPT !.queue = <<Item("full", st.id, st.off, "master", <<>>, RollUp(SubSeq(@, 2, e - 1)))>> \o Drop(@, e)]]
+
 NextCall(sch, cfg, inp, r) ==
-  LET r1 == IF r.queue = <<>> THEN ReadNext(sch, cfg, inp, r) ELSE r IN
-  IF r1.queue = <<>> THEN [res |-> NoneRes, r |-> r1]
-  ELSE [res |-> r1.queue[1], r |-> [r1 EXCEPT !.queue = Tail(@)]]
+  LET r1 == IF r.queue = <<>> THEN ReadNext(sch, cfg, inp, r) ELSE r
+      a  == Assemble(sch, cfg, inp, r1) IN
+  IF ~a.ready \/ a.r.queue = <<>> THEN [res |-> NoneRes, r |-> a.r]
+  ELSE [res |-> a.r.queue[1], r |-> [a.r EXCEPT !.queue = Tail(@)]]
 
 Enlarge(stack, d) == [i \in 1..Len(stack) |->
    IF stack[i].unk THEN stack[i] ELSE [stack[i] EXCEPT !.size = Min(HUGE, @ + d)]]
